@@ -194,6 +194,21 @@ def run(facts, cg):
                 ra = b.base_of(t['args'][pi_a])
                 if arch_for(out_arch, out_archs, b, bi) is not None and (ra is None or ra[0] != arch_for(out_arch, out_archs, b, bi)):
                     finding('R-WIRE', b.q, 'fetch-other-archive', 'chunks are fetched from a different archive value than the one that defined the output')
+        # scans written in place (or inlined): the chunker / the index are built right here
+        for bi, t in b.calls():
+            if 'q' not in t['callee']:
+                continue
+            for (target, targ, accessor, what) in ((NEW_CHUNKER, 0, 'Archive::chunker_config', 'chunker configuration'),
+                                                   (NEW_INDEX, 0, 'Archive::chunk_hash_length', 'hash length')):
+                if callee_q(t) == target and targ < len(t['args']):
+                    scans += 1
+                    term = simplify(T.of_operand(b, t['args'][targ]))
+                    instances.append({'rule': 'R-WIRE(scan-config)', 'function': b.q, 'call': target.split('::')[-1], 'at': t['loc'], 'what': what, 'term': show(term)[:80]})
+                    if not has_call(term, accessor):
+                        finding('R-WIRE', b.q, 'scan-%s:%s' % (what.split()[0], 'inline'),
+                                'a scan at %s uses a %s that is not the archive\'s own (%s)' % (t['loc'], what, show(term)[:120]))
+                    elif arch_for(out_arch, out_archs, b, bi) is not None and accessor_receiver(b, t['args'][targ], accessor) not in (None, arch_for(out_arch, out_archs, b, bi)):
+                        finding('R-WIRE', b.q, 'scan-other-archive:inline', 'a scan at %s uses the %s of a different archive value' % (t['loc'], what))
         if scans < 4:
             finding('R-WIRE', b.q, 'floor', 'expected the output scan and the seed scans (config + hash length) to be found, got %d role sites: cannot decide' % scans)
     # inside the fetch helper: chunk_stream's argument is output.chunks() of the same output that is fed
